@@ -21,6 +21,7 @@ import sys
 from decimal import Decimal
 
 HERE = os.path.dirname(os.path.abspath(__file__))
+EA = "include/romea_core_common/math/EulerAngles.hpp"
 
 # (coq name, source file, qualified-name filter for clang, method name)
 FUNCS = [
@@ -31,6 +32,15 @@ FUNCS = [
     ("src_toECEF", "src/geodesy/ECEFConverter.cpp", "romea::core::ECEFConverter::toECEF", "toECEF"),
     ("src_toLambert", "src/geodesy/LambertConverter.cpp", "romea::core::LambertConverter::toLambert", "toLambert"),
     # matrix mode: the 3x3 block written column by column with Eigen comma initialisers  m.linear().col(k) << a, b, c;
+    # function templates: the instantiation at Scalar = double (explicitly instantiated in the translation unit)
+    ("src_between0And2Pi", EA, "romea::core::between0And2Pi", "between0And2Pi",
+     {"tu": "template double romea::core::between0And2Pi<double>(double);\n", "constexpr": [("M_2PI", "romea::core::M_2PI")]}),
+    ("src_betweenMinusPiAndPi", EA, "romea::core::betweenMinusPiAndPi", "betweenMinusPiAndPi",
+     {"tu": "template double romea::core::betweenMinusPiAndPi<double>(double);\n", "constexpr": [("M_2PI", "romea::core::M_2PI")]}),
+    ("src_rotation2DToEulerAngle", EA, "romea::core::rotation2DToEulerAngle", "rotation2DToEulerAngle",
+     {"tu": "template double romea::core::rotation2DToEulerAngle<double>(const Eigen::Matrix<double, 2, 2> &);\n"}),
+    ("src_rotation3DToEulerAngles", EA, "romea::core::rotation3DToEulerAngles", "rotation3DToEulerAngles",
+     {"tu": "template Eigen::Matrix<double, 3, 1> romea::core::rotation3DToEulerAngles<double>(const Eigen::Matrix<double, 3, 3> &);\n"}),
     ("src_enuFrame", "src/geodesy/ENUConverter.cpp", "romea::core::ENUConverter::setAnchor", "setAnchor", {"matrix": "linear"}),
 ]
 UNARY = {"sin": "nsin", "cos": "ncos", "tan": "ntan", "atan": "natan", "sqrt": "nsqrt", "log": "nln", "exp": "nexp",
@@ -45,9 +55,14 @@ class Unsupported(Exception):
     pass
 
 
-def load(repo, src, flt):
-    tu = "#include \"%s\"\n" % src
-    cmd = ["clang++", "-std=c++17", "-fsyntax-only", "-w", "-I" + os.path.join(repo, "include"), "-I" + repo,
+def is_scalar(ty):
+    return ty.replace("const", "").replace("&", "").strip() in ("double", "float")
+
+
+def load(repo, src, flt, extra_tu=""):
+    tu = "#include \"%s\"\n%s" % (src, extra_tu)
+    # -DNDEBUG: as the library is built; assert(...) becomes ((void)0) and is skipped
+    cmd = ["clang++", "-std=c++17", "-DNDEBUG", "-fsyntax-only", "-w", "-I" + os.path.join(repo, "include"), "-I" + repo,
            "-I/usr/include/eigen3", "-Xclang", "-ast-dump=json", "-Xclang", "-ast-dump-filter=" + flt, "-x", "c++", "-"]
     p = subprocess.run(cmd, input=tu, capture_output=True, text=True, timeout=300)
     if p.returncode != 0:
@@ -83,12 +98,14 @@ class Fn:
     def __init__(self, node, known=None, mode=None):
         self.node = node
         self.mode = mode or {}
+        self.consts = self.mode.get("consts", {})   # namespace-scope constexpr name -> term (translated from its initialiser)
+        self.ssa = 0
         self.cols = {}        # matrix mode: column index -> [terms]
         self.skipped = []     # matrix mode: statements that touch neither the matrix nor a scalar local
         self.known = known or {}   # C++ function name -> (coq name, number of parameters) for pure helpers already translated
         # scalar parameters first, in declaration order; other free variables (members, fields of parameters) follow
         self.free = [c["name"] for c in node.get("inner", []) if c.get("kind") == "ParmVarDecl" and c.get("name")
-                     and ("double" in c.get("type", {}).get("qualType", "") or "float" in c.get("type", {}).get("qualType", ""))]
+                     and is_scalar(c.get("type", {}).get("qualType", ""))]
         self.nparams = len(self.free)
         self.locals = {}      # local scalar name -> coq name
         self.vec = {}         # local vector name -> {index: term}
@@ -135,6 +152,10 @@ class Fn:
             nm = n["referencedDecl"]["name"]
             if nm in self.locals:
                 return self.locals[nm]
+            if nm in self.consts:
+                return self.consts[nm]
+            if n["referencedDecl"].get("kind") == "VarDecl" and nm not in self.free:
+                raise Unsupported("reference to non-local variable %s (declare it in CONSTS)" % nm)
             return self.var(nm)
         if k == "MemberExpr":
             return self.var(self.path(n))
@@ -142,6 +163,31 @@ class Fn:
             return "(nneg N %s)" % self.expr(n["inner"][0])
         if k == "UnaryOperator" and n.get("opcode") == "+":
             return self.expr(n["inner"][0])
+        if k == "BinaryOperator" and n.get("opcode") in ("<", ">", "<=", ">="):
+            a, b = self.expr(n["inner"][0]), self.expr(n["inner"][1])
+            op = n["opcode"]
+            return {"<": "(nltb N %s %s)" % (a, b), ">": "(nltb N %s %s)" % (b, a),
+                    "<=": "(nleb N %s %s)" % (a, b), ">=": "(nleb N %s %s)" % (b, a)}[op]
+        if k == "BinaryOperator" and n.get("opcode") in ("&&", "||"):
+            return "(%s %s %s)" % ("andb" if n["opcode"] == "&&" else "orb", self.expr(n["inner"][0]), self.expr(n["inner"][1]))
+        if k == "UnaryOperator" and n.get("opcode") == "!":
+            return "(negb %s)" % self.expr(n["inner"][0])
+        if k == "ConditionalOperator":
+            c, a, b = n["inner"]
+            return "(if %s then %s else %s)" % (self.expr(c), self.expr(a), self.expr(b))
+        if k == "CXXOperatorCallExpr" and len(n.get("inner", [])) >= 3 and \
+                self.strip(n["inner"][0]).get("referencedDecl", {}).get("name") in ("operator()", "operator[]"):
+            # element access  m(i, j) / v(i) / v[i]  on a parameter: a free variable named after the indexes
+            obj = self.strip(n["inner"][1])
+            idx = [self.strip(a) for a in n["inner"][2:]]
+            if obj.get("kind") == "DeclRefExpr" and all(a.get("kind") == "IntegerLiteral" for a in idx):
+                nm = obj["referencedDecl"]["name"]
+                if nm in self.vec:
+                    if len(idx) == 1 and int(idx[0]["value"]) in self.vec[nm]:
+                        return self.vec[nm][int(idx[0]["value"])]
+                    raise Unsupported("read of unset component of %s" % nm)
+                return self.var(nm + "_" + "_".join(a["value"] for a in idx))
+            raise Unsupported("element access")
         if k == "BinaryOperator" and n.get("opcode") in BINOP:
             return "(%s N %s %s)" % (BINOP[n["opcode"]], self.expr(n["inner"][0]), self.expr(n["inner"][1]))
         if k == "CallExpr":
@@ -196,7 +242,7 @@ class Fn:
                         raise Unsupported("declaration %s" % v.get("kind"))
                     ty = v.get("type", {}).get("qualType", "")
                     init = [c for c in v.get("inner", []) if isinstance(c, dict)]
-                    if "double" in ty or "float" in ty:
+                    if is_scalar(ty):
                         if not init:
                             raise Unsupported("uninitialised scalar %s" % v.get("name"))
                         t = self.expr(init[0])
@@ -207,8 +253,17 @@ class Fn:
                         self.vec[v["name"]] = {}          # an aggregate filled component by component
             elif k == "ReturnStmt":
                 result = self.components(st["inner"][0])
-            elif k == "CStyleCastExpr" and st.get("type", {}).get("qualType") == "void":
-                continue                                  # (void)x; — silences an unused-variable warning, no effect
+            elif self.void_noop(st):
+                continue                                  # (void)x;  ((void)0);  — no effect (NDEBUG assert, unused-variable silencer)
+            elif k == "IfStmt" or self.scalar_assignment(st):
+                env = dict(self.locals)
+                self.effects(st, env)
+                for nm in env:
+                    if env[nm] != self.locals[nm]:
+                        self.ssa += 1
+                        cn = "l_%s_%d" % (nm, self.ssa)
+                        self.lets.append((cn, env[nm]))
+                        self.locals[nm] = cn
             elif k == "NullStmt":
                 continue
             elif self.mode.get("matrix") and k in ("BinaryOperator", "CXXOperatorCallExpr", "ExprWithCleanups", "CXXMemberCallExpr"):
@@ -247,6 +302,58 @@ class Fn:
             raise Unsupported("no return")
         return result
 
+    def void_noop(self, st):
+        if st.get("type", {}).get("qualType") != "void" or st.get("kind") not in ("ParenExpr", "CStyleCastExpr", "CXXStaticCastExpr", "CXXFunctionalCastExpr"):
+            return False
+        n = st
+        while n.get("kind") in ("ParenExpr", "CStyleCastExpr", "CXXStaticCastExpr", "CXXFunctionalCastExpr", "ImplicitCastExpr") and n.get("inner"):
+            n = n["inner"][-1]
+        return n.get("kind") in ("IntegerLiteral", "DeclRefExpr")
+
+    def scalar_assignment(self, st):
+        s = self.strip(st)
+        if s.get("kind") in ("BinaryOperator", "CompoundAssignOperator") and s.get("opcode") in ("=", "+=", "-=", "*=", "/="):
+            lhs = self.strip(s["inner"][0])
+            return lhs.get("kind") == "DeclRefExpr" and lhs["referencedDecl"]["name"] in self.locals
+        return False
+
+    def expr_in(self, n, env):
+        saved = self.locals
+        self.locals = env
+        try:
+            return self.expr(n)
+        finally:
+            self.locals = saved
+
+    def effects(self, st, env):
+        """effect of assignments / if-else on the scalar locals: env (local -> term) is updated in place"""
+        k = st.get("kind")
+        if k == "CompoundStmt":
+            for c in st.get("inner", []):
+                self.effects(c, env)
+        elif k == "IfStmt":
+            parts = [c for c in st.get("inner", []) if isinstance(c, dict)]
+            if len(parts) not in (2, 3) or st.get("hasInit") or st.get("hasVar"):
+                raise Unsupported("if statement shape")
+            c = self.expr_in(parts[0], env)
+            e1, e2 = dict(env), dict(env)
+            self.effects(parts[1], e1)
+            if len(parts) == 3:
+                self.effects(parts[2], e2)
+            for nm in env:
+                if e1[nm] != e2[nm]:
+                    env[nm] = "(if %s then %s else %s)" % (c, e1[nm], e2[nm])
+        elif self.scalar_assignment(st):
+            s = self.strip(st)
+            nm = self.strip(s["inner"][0])["referencedDecl"]["name"]
+            rhs = self.expr_in(s["inner"][1], env)
+            op = s["opcode"]
+            env[nm] = rhs if op == "=" else "(%s N %s %s)" % (BINOP[op[0]], env[nm], rhs)
+        elif self.void_noop(st) or k == "NullStmt":
+            pass
+        else:
+            raise Unsupported("statement %s inside if / assignment sequence" % k)
+
     def mentions(self, n, member):
         """does the statement name the matrix accessor, or any scalar local (which it could then modify)?"""
         if n.get("kind") == "MemberExpr" and n.get("name") == member:
@@ -283,12 +390,13 @@ class Fn:
         return int(idx["value"]), [self.expr(e) for e in [first] + rest]
 
 
-def find_def(objs, mname):
+def find_def(objs, mname, instantiation=False):
     found = []
 
     def walk(n):
         if n.get("kind") in ("CXXMethodDecl", "FunctionDecl") and n.get("name") == mname and \
-                any(c.get("kind") == "CompoundStmt" for c in n.get("inner", [])):
+                any(c.get("kind") == "CompoundStmt" for c in n.get("inner", [])) and \
+                any(c.get("kind") == "TemplateArgument" for c in n.get("inner", [])) == instantiation:
             found.append(n)
         for c in n.get("inner", []):
             if isinstance(c, dict):
@@ -307,7 +415,17 @@ def generate(repo="/repo"):
         cname, src, flt, mname = entry[:4]
         mode = entry[4] if len(entry) > 4 else None
         try:
-            defs = find_def(load(repo, src, flt), mname)
+            mode = dict(mode) if mode else None
+            tu = mode.get("tu", "") if mode else ""
+            if mode and mode.get("constexpr"):
+                # namespace-scope constexpr scalars the function reads: their initialisers are translated too
+                mode["consts"] = {}
+                for cn_, cflt in mode["constexpr"]:
+                    vds = [o for o in load(repo, src, cflt) if o.get("kind") == "VarDecl" and o.get("name") == cn_]
+                    if len(vds) != 1 or not vds[0].get("inner"):
+                        raise Unsupported("constant %s: %d definitions" % (cn_, len(vds)))
+                    mode["consts"][cn_] = Fn({"inner": []}).expr(vds[0]["inner"][-1])
+            defs = find_def(load(repo, src, flt, tu), mname, bool(mode and mode.get("tu")))
             if len(defs) != 1:
                 raise Unsupported("%d definitions found" % len(defs))
             f = Fn(defs[0], known, mode)
@@ -322,7 +440,7 @@ def generate(repo="/repo"):
             params = " ".join("(%s : T)" % v for v in f.free)
             lines.append("(* %s::%s   free variables in order of appearance: %s%s *)" % (
                 src, mname, ", ".join(f.free),
-                ("; 3x3 block row-major; %d statements not touching it skipped" % len(f.skipped)) if mode else ""))
+                ("; 3x3 block row-major; %d statements not touching it skipped" % len(f.skipped)) if mode and mode.get("matrix") else ""))
             lines.append("Definition %s %s : %s :=\n%s.\n" % (cname, params, rty, body))
             summary[cname] = f.free
         except Unsupported as e:
